@@ -19,18 +19,29 @@ import (
 // every start position; invariant on every execution of a memoized body:
 // simultaneously active executions at one position <= Remaining(pos)+2.
 
+// fullTrimNl: the full alphabet plus Left/RightTrim in the modes whose error does not imply that input was skipped
+// (spaces-and-newlines never errs, force-newline errs on an EMPTY run), inputs over {a, b, LF}
+var fullTrimNl = func() gram.Alphabet {
+	a := gram.Full.With("full+trim(2,3)", gram.LTrim, gram.RTrim)
+	a.TrimModes = []int{2, 3}
+	return a
+}()
+var abNl = []byte{'a', 'b', '\n'}
+
 func c02Specs(tier string) []spaceSpec {
 	if tier == "thorough" {
 		return []spaceSpec{
 			{sp: &gram.Space{Name: "full-1nt", Alpha: gram.Full, NNT: 1, Min: 1, Max: 5}, maxLen: 4, alpha: ab},
 			{sp: &gram.Space{Name: "core-1nt", Alpha: gram.Core, NNT: 1, Min: 6, Max: 7}, maxLen: 4, alpha: ab},
 			{sp: &gram.Space{Name: "full-2nt", Alpha: gram.Full, NNT: 2, Min: 2, Max: 6}, maxLen: 3, alpha: ab},
+			{sp: &gram.Space{Name: "full+trims-1nt", Alpha: fullTrimNl, NNT: 1, Min: 2, Max: 5}, maxLen: 3, alpha: abNl},
 		}
 	}
 	return []spaceSpec{
 		{sp: &gram.Space{Name: "full-1nt", Alpha: gram.Full, NNT: 1, Min: 1, Max: 4}, maxLen: 4, alpha: ab},
 		{sp: &gram.Space{Name: "core-1nt", Alpha: gram.Core, NNT: 1, Min: 5, Max: 6}, maxLen: 4, alpha: ab},
 		{sp: &gram.Space{Name: "full-2nt", Alpha: gram.Full, NNT: 2, Min: 2, Max: 5}, maxLen: 3, alpha: ab},
+		{sp: &gram.Space{Name: "full+trims-1nt", Alpha: fullTrimNl, NNT: 1, Min: 2, Max: 4}, maxLen: 3, alpha: abNl},
 	}
 }
 
